@@ -371,18 +371,12 @@ def order_views(fp: dict) -> list:
     return sorted(G.VIEWS, key=lambda v: (-size[v], v))
 
 
-def explore(ctx: core.Ctx, inputs: list, depth_of, deadline: float) -> None:
-    """Level-synchronous BFS over all inputs at once.  depth_of(spec) = maximal history length for that input
-    (None = unbounded)."""
+def explore(ctx: core.Ctx, inputs: list, depth_of, deadline: float, view_order: list, stage: str) -> dict:
+    """Level-synchronous BFS over all given inputs at once.  depth_of(spec) = maximal history length for that
+    input (None = unbounded).  Returns the statistics of this stage."""
     acc = ctx.acc
     for s in inputs:     # built once in the parent, inherited by the forked workers
         reference(s)
-    fp = footprints(next(s for s in inputs if s[0] == 'synth'))
-    view_order = order_views(fp)
-    ctx.coverage_extra['footprints'] = fp
-    ctx.coverage_extra['view_order'] = view_order
-    k = ctx.seed % len(view_order)
-    view_order = view_order[k:] + view_order[:k]
 
     pre = BAcc()
     core.par_map(shard, [('pre', s) for s in inputs if s[0] == 'synth'], pre)
@@ -404,7 +398,7 @@ def explore(ctx: core.Ctx, inputs: list, depth_of, deadline: float) -> None:
         a = BAcc()
         if not core.par_map(shard, shards, a, deadline=deadline):
             capped = True
-            acc.caps.append(f'time cap hit while probing depth {depth}; complete up to depth {depth - 1} for all inputs')
+            acc.caps.append(f'{stage}: time cap hit while probing histories of length {depth}; every state reached by <= {depth - 1} reads was checked for all inputs of this stage')
             acc.merge(a)
             break
         acc.merge(a)
@@ -426,7 +420,7 @@ def explore(ctx: core.Ctx, inputs: list, depth_of, deadline: float) -> None:
         traces += b_.counters.get('traces_check', 0)
         if not ok:
             capped = True
-            acc.caps.append(f'time cap hit while checking states of depth {depth}; complete up to depth {depth - 1} for all inputs')
+            acc.caps.append(f'{stage}: time cap hit while checking the states first reached by {depth} reads; every state reached by <= {depth - 1} reads was checked for all inputs of this stage')
             break
         for s in frontier:
             done_depth[s] = depth
@@ -447,13 +441,10 @@ def explore(ctx: core.Ctx, inputs: list, depth_of, deadline: float) -> None:
             nxt[s] = cand
         frontier = nxt
         depth += 1
-    transitions += acc.counters.get('transitions_selfloop', 0)
-    ctx.coverage_extra['states'] = sum(len(v) for v in seen.values())
-    ctx.coverage_extra['transitions'] = transitions
-    ctx.coverage_extra['traces_validated_against_impl'] = traces
-    ctx.coverage_extra['states_per_input'] = {input_name(s): len(v) for s, v in seen.items()}
-    ctx.coverage_extra['depth_completed_per_input'] = {input_name(s): d for s, d in done_depth.items()}
-    ctx.coverage_extra['graph_exhausted'] = not capped and all(depth_of(s) is None for s in seen)
+    return {'states': sum(len(v) for v in seen.values()), 'transitions': transitions, 'traces': traces,
+            'states_per_input': {input_name(s): len(v) for s, v in seen.items()},
+            'depth_completed_per_input': {input_name(s): d for s, d in done_depth.items()},
+            'exhausted': {input_name(s): (not capped and depth_of(s) is None) for s in seen}, 'capped': capped}
 
 
 def all_inputs() -> list:
@@ -489,9 +480,27 @@ def run(ctx: core.Ctx) -> None:
     global _BASE
     _BASE = ctx.scratch
     try:
-        explore(ctx, inputs, depth_of, deadline)
+        fp = footprints(('synth', 'v20', 'none', 0))
+        view_order = order_views(fp)
+        ctx.coverage_extra['footprints'] = fp
+        ctx.coverage_extra['view_order'] = view_order
+        k = ctx.seed % len(view_order)
+        view_order = view_order[k:] + view_order[:k]
+        # stage 1: the cheap inputs (no LZMA on save) - these carry the deep / full-graph search;
+        # stage 2: everything that has to run the LZMA encoder on every save, with what is left of the budget.
+        cheap = [s for s in inputs if variant(s) in (('none', 0), ('full-sample', 0))]
+        costly = [s for s in inputs if s not in cheap]
+        stats = [explore(ctx, cheap, depth_of, deadline, view_order, 'stage 1 (uncompressed inputs)'),
+                 explore(ctx, costly, depth_of, deadline, view_order, 'stage 2 (LZMA inputs)')]
     finally:
         _BASE = None        # replays after the run use (and remove) their own directory
+    ce = ctx.coverage_extra
+    ce['states'] = sum(st['states'] for st in stats)
+    ce['transitions'] = sum(st['transitions'] for st in stats) + ctx.acc.counters.get('transitions_selfloop', 0)
+    ce['traces_validated_against_impl'] = sum(st['traces'] for st in stats)
+    for key in ('states_per_input', 'depth_completed_per_input', 'exhausted'):
+        ce[key if key != 'exhausted' else 'full_graph_exhausted_per_input'] = {k: v for st in stats for k, v in st[key].items()}
+    ce['full_graphs_exhausted'] = sum(1 for st in stats for v in st['exhausted'].values() if v)
     ctx.rule = (
         'inputs: tests/test_vec/rot_main.bsp with the entity lump cut to 40 entities + independently encoded, fully '
         'populated BSPs for 7 layouts (v19, v20, v21, L4D2 header order, INFRA v22, Chaos v25, VitaminSource v43) x '
